@@ -109,6 +109,12 @@ func genConcOpKind(t *sim.Tape, kind int) concOp {
 			in := postscript.NewInterpreter()
 			in.MaxOps = budget
 			err := in.Execute(bytes.NewReader(p.Src))
+			if hostileIteratesDict(p.Src, budget) {
+				// with its own error handlers in place a hostile program may go on
+				// after an error and hand forall a dictionary: PostScript leaves the
+				// order open, so there is no single result to compare
+				return "program iterates a dictionary: order left open by PostScript"
+			}
 			return dump.Err(err) + " " + dump.InterpNoDSC(in)
 		}}
 	case 1: // CMap
@@ -526,6 +532,23 @@ func pristineProbeUncached() string {
 		os.Exit(3)
 	}
 	return res
+}
+
+// hostileIteratesDict runs the program once more, in an interpreter of its
+// own, behind a prologue that makes forall report dictionary operands.
+func hostileIteratesDict(src []byte, budget int) (yes bool) {
+	defer func() {
+		if recover() != nil {
+			yes = false
+		}
+	}()
+	in := postscript.NewInterpreter()
+	in.ExecuteString("userdict /forall { mark 2 index type /dicttype eq { userdict /VERIF-dict-forall true put } if cleartomark systemdict /forall get exec } put")
+	in.NumOps = 0
+	in.MaxOps = budget
+	in.Execute(bytes.NewReader(src))
+	_, yes = in.UserDict["VERIF-dict-forall"]
+	return yes
 }
 
 func safeExecute(in *postscript.Interpreter, src []byte) (err error, panicked bool) {
